@@ -73,3 +73,45 @@ def tm_text(c):
     for (p, a, q, b, d) in c['delta']:
         lines.append('%s %s %s%s,%s' % (p, q, a, b, d))
     return '\n'.join(lines)
+
+
+# ---------------------------------------------------------------- DFA / NFA (case dicts <-> gambatools objects)
+def dfa_obj(c, check=True):
+    from gambatools.dfa import DFA
+    delta = {(q, a): q1 for (q, a, q1) in c['delta']}
+    return DFA(set(c['Q']), set(c['Sigma']), delta, c['q0'], set(c['F']), check_validity=check)
+
+
+def dfa_case(D):
+    return {'Q': sorted(D.Q), 'Sigma': sorted(D.Sigma), 'delta': sorted([q, a, q1] for (q, a), q1 in D.delta.items()),
+            'q0': D.q0, 'F': sorted(D.F)}
+
+
+def dfa_text(c):
+    lines = ['states ' + ' '.join(c['Q']), 'initial ' + c['q0'], 'final ' + ' '.join(c['F']), 'input_symbols ' + ' '.join(c['Sigma'])]
+    for (q, a, q1) in c['delta']:
+        lines.append('%s %s %s' % (q, q1, a))
+    return '\n'.join(lines)
+
+
+def nfa_obj(c, plain_dict=False):
+    from collections import defaultdict
+    from gambatools.nfa import NFA
+    delta = {} if plain_dict else defaultdict(set)
+    for (q, a, qs) in c['delta']:
+        delta[(q, a)] = set(qs)
+    return NFA(set(c['Q']), set(c['Sigma']), delta, c['q0'], set(c['F']), c['eps'])
+
+
+def nfa_case(N):
+    return {'Q': sorted(N.Q), 'Sigma': sorted(N.Sigma), 'delta': sorted([q, a, sorted(qs)] for (q, a), qs in N.delta.items() if qs),
+            'q0': N.q0, 'F': sorted(N.F), 'eps': N.epsilon}
+
+
+def nfa_text(c):
+    eps = c['eps'] if c['eps'] else "''"
+    lines = ['states ' + ' '.join(c['Q']), 'initial ' + c['q0'], 'final ' + ' '.join(c['F']), 'input_symbols ' + ' '.join(c['Sigma']), 'epsilon ' + eps]
+    for (q, a, qs) in c['delta']:
+        for q1 in qs:
+            lines.append('%s %s %s' % (q, q1, a if a != c['eps'] else eps))
+    return '\n'.join(lines)
